@@ -72,6 +72,77 @@ func baseStruct(t reflect.Type) reflect.Type {
 }
 
 // genQuery draws a random query over the field tree of struct type t.
+// c19TaggedHeads: a query makes its first selected member the head of the filtered program, at
+// that member's real offset. Every omitempty member of QTagged is made the first (and only, and
+// first of two) selected member, empty while all the others are set and set while all the others
+// are empty, at top level, through a pointer and one level down (sub-query through PP).
+func c19TaggedHeads(c *rt.Ctx, sub0 int) {
+	names := []string{"a", "p", "i", "s", "m", "l", "pi", "pp"}
+	mk := func(member string, memberSet bool) *zoo.QTagged {
+		q := &zoo.QTagged{N: 3, Z: 1}
+		n := 5
+		set := func(name string, on bool) {
+			if !on {
+				return
+			}
+			switch name {
+			case "a":
+				q.A = 7
+			case "p":
+				q.P = &zoo.QLeaf{P: 1, Q: "q"}
+			case "i":
+				q.I = zoo.QLeaf{P: 2}
+			case "s":
+				q.S = "s"
+			case "m":
+				q.M = map[string]int{"k": 1}
+			case "l":
+				q.L = []int{1, 2}
+			case "pi":
+				q.PI = &n
+			case "pp":
+				q.PP = &zoo.QTagged{Z: 2, S: "inner"}
+			}
+		}
+		for _, nm := range names {
+			set(nm, (nm == member) == memberSet)
+		}
+		return q
+	}
+	sub := sub0
+	for _, m := range names {
+		for _, memberSet := range []bool{true, false} {
+			q := mk(m, memberSet)
+			outer := &zoo.QTagged{Z: 9, PP: q, A: 1}
+			if !memberSet {
+				outer = &zoo.QTagged{Z: 9, PP: q}
+			}
+			cases := []struct {
+				v any
+				t reflect.Type
+				q *qnode
+			}{
+				{*q, reflect.TypeOf(*q), &qnode{subs: []*qnode{{name: m}}}},
+				{q, reflect.TypeOf(q), &qnode{subs: []*qnode{{name: m}}}},
+				{*q, reflect.TypeOf(*q), &qnode{subs: []*qnode{{name: m}, {name: "z"}}}},
+				{q, reflect.TypeOf(q), &qnode{subs: []*qnode{{name: m}, {name: "n"}}}},
+				{outer, reflect.TypeOf(outer), &qnode{subs: []*qnode{{name: "pp", subs: []*qnode{{name: m}}}}}},
+				{*outer, reflect.TypeOf(*outer), &qnode{subs: []*qnode{{name: "pp", subs: []*qnode{{name: m}, {name: "z"}}}, {name: "z"}}}},
+			}
+			for _, cs := range cases {
+				sub++
+				if !c.Cur(sub, fmt.Sprintf("shapes=core\nomitempty member %s (set=%v) as head of the filtered program: %s", m, memberSet, cs.q)) {
+					continue
+				}
+				c19Check(c, sub, cs.v, cs.t, cs.q, "first-use")
+				c19Check(c, sub, cs.v, cs.t, cs.q, "after-other-queries")
+			}
+		}
+	}
+	c.Obs("tagged_head_queries", int64(sub-sub0))
+	c.NonTrivial("tagged-heads")
+}
+
 func genQuery(r *rand.Rand, t reflect.Type, depth int) *qnode {
 	q := &qnode{subs: []*qnode{}}
 	for _, f := range jsonFields(t, nil, 0) {
@@ -631,6 +702,9 @@ func init() {
 			r := c.RNG(0)
 			if c.Idx%16 == 3 {
 				c19CtxPtrRecv(c, 9000)
+			}
+			if c.Idx%16 == 4 {
+				c19TaggedHeads(c, 9500)
 			}
 			types := []reflect.Type{reflect.TypeOf(zoo.QOuter{}), reflect.TypeOf(zoo.QInner{}), reflect.TypeOf(zoo.QLeaf{})}
 			for k := 0; k < 24; k++ {
